@@ -67,7 +67,9 @@ CHUNK = 300
 
 def configs():
     # (the in-heap storage backend has no memory cache and no budget: one configuration per scenario)
-    return [(s, st, b) for s in SCENARIOS for st in STORES for b in BUDGETS] + [(s, "cold_mem", "16MiB") for s in SCENARIOS]
+    return [(s, st, b) for s in SCENARIOS for st in STORES for b in BUDGETS] + [(s, "cold_mem", "16MiB") for s in SCENARIOS] + [
+        # ... and once more with the cluster described by a configuration dictionary rather than built around a backend object
+        (s, "cold_mem_cfg", "16MiB") for s in SCENARIOS]
 
 
 def cases(tier, seed):
@@ -75,6 +77,7 @@ def cases(tier, seed):
     quick_sys = {(s, st, "4KiB") for s in list(SCENARIOS)[:6] for st in ("cold", "warm_store")} | {
         ("same_key", "warm_cache", "4KiB"), ("diff_keys", "cold", "16MiB"), ("batch", "warm_store", "16MiB"),
         ("same_key", "cold_mem", "16MiB"), ("nested", "cold_mem", "16MiB"), ("batch", "cold_mem", "16MiB"),
+        ("same_key", "cold_mem_cfg", "16MiB"), ("diff_keys", "cold_mem_cfg", "16MiB"),
         ("auto_version", "cold", "16MiB"), ("auto_two_deps", "cold", "16MiB"), ("partitions", "cold", "16MiB"),
         ("partitions", "cold", "4KiB")}
     for ci, (s, st, b) in enumerate(cfgs):
@@ -183,9 +186,20 @@ def setup(root, scenario, store, budget):
         importlib.reload(ffuncs)
     ffuncs.TABLE.update(table())
     st = env.mem_backend() if store == "cold_mem" else env.fs_backend(os.path.join(root, "data"), cache_mb=BUDGETS[budget])
-    env.set_env(os.path.join(root, "env"), default_storage=st)
+    e = env.set_env(os.path.join(root, "env"), default_storage=st)
+    if store == "cold_mem_cfg":
+        # the default cluster comes from a configuration dictionary; nobody has used it before the threads start
+        import twosigma.memento as m
+
+        e.default_cluster = m.FunctionCluster(config={"name": "default", "storage": {"type": "memory"}})
+
+        class _Later:  # (whatever the harness asks the backend afterwards is asked of the cluster's backend as it is then)
+            def __getattr__(self, name):
+                return getattr(m.Environment.get().default_cluster.storage, name)
+
+        st = _Later()
     sched.reset_mutexes()
-    if store not in ("cold", "cold_mem"):
+    if store not in ("cold", "cold_mem", "cold_mem_cfg"):
         for fn, k in sorted(entries_of(scenario)):
             getattr(ffuncs, fn)(k)
         if store == "warm_store":
@@ -279,7 +293,7 @@ def controlled_run(root, scenario, store, budget, strategy):
     ran = collections.Counter((e[0], e[1][0]) for e in events)
     if not s.deadlock and not s.errors:
         for ent in entries_of(scenario):
-            want = 0 if store not in ("cold", "cold_mem") else 1
+            want = 0 if store not in ("cold", "cold_mem", "cold_mem_cfg") else 1
             if ran.get(ent, 0) != want:
                 bad.append(("the body of a distinct call ran %s" % ("although it was memoized" if want == 0 else
                                                                      ("more than once" if ran.get(ent, 0) > 1 else "not at all")),
@@ -292,7 +306,7 @@ def controlled_run(root, scenario, store, budget, strategy):
     if not bad:
         # every distinct call is memoized once the threads have finished: calling each again runs no body
         # (asked through a new, cache-less backend object over the same directory: what a later process would find)
-        if store != "cold_mem":
+        if not store.startswith("cold_mem"):
             env.set_env(os.path.join(root, "env-after"), default_storage=env.fs_backend(os.path.join(root, "data")))
         mark2 = REC.mark()
         for fn, k in sorted(entries_of(scenario)):
